@@ -374,33 +374,69 @@ func histMain(path, mode string) int {
 	sc.Buffer(make([]byte, 1<<20), 1<<28)
 	out := bufio.NewWriter(os.Stdout)
 	defer out.Flush()
-	var e *histEnv
-	closeEnv := func() {
-		if e != nil {
-			drainPool()
+	// several database instances per case: a line may start with "@<n>" to address instance n
+	// (default 0); each instance lives in <base>/<n> and is opened at its first use
+	var (
+		envs    map[int]*histEnv
+		base    string
+		keep    bool
+		keys    []string
+		keyIds  map[string]int
+		roots   int
+		maxdir  int
+	)
+	closeAll := func() {
+		if envs == nil {
+			return
+		}
+		drainPool()
+		for _, e := range envs {
 			if e.h != nil {
 				e.h.Close()
 			}
-			os.RemoveAll(e.dir)
-			e = nil
 		}
+		if !keep {
+			os.RemoveAll(base)
+		}
+		envs = nil
 	}
-	defer closeEnv()
+	defer closeAll()
+	getEnv := func(n int) (*histEnv, error) {
+		if e, ok := envs[n]; ok {
+			return e, nil
+		}
+		dir := filepath.Join(base, strconv.Itoa(n))
+		e := &histEnv{mode: mode, dir: dir, keys: keys, keyIds: keyIds, txs: []fs_db.Tx{nil}, shas: map[[32]byte]uint64{}}
+		e.cfg.Storage.DbPath = filepath.Join(dir, "db")
+		for i := 0; i < roots; i++ {
+			e.cfg.Storage.RootDirs = append(e.cfg.Storage.RootDirs, filepath.Join(dir, fmt.Sprintf("r%d", i)))
+		}
+		e.cfg.Storage.MaxDirCount = uint64(maxdir)
+		e.cfg.Storage.GCPeriod = time.Hour
+		e.cfg.WPool.NumWorkers = 2
+		e.cfg.WPool.SendDuration = time.Millisecond
+		envs[n] = e
+		if oerr := e.open(); oerr != nil {
+			e.h = nil
+			return e, oerr
+		}
+		return e, nil
+	}
 	for sc.Scan() {
 		l := strings.TrimSpace(sc.Text())
 		if l == "" || l[0] == '#' {
 			continue
 		}
 		t := strings.Fields(l)
+		inst := 0
+		if t[0][0] == '@' {
+			inst, _ = strconv.Atoi(t[0][1:])
+			t = t[1:]
+		}
 		switch t[0] {
 		case "case":
-			closeEnv()
-			dir, derr := os.MkdirTemp("", "fsdbh-")
-			if derr != nil {
-				fmt.Fprintln(os.Stderr, derr)
-				return 2
-			}
-			roots, maxdir := 1, 100
+			closeAll()
+			roots, maxdir, keep, base = 1, 100, false, ""
 			for _, kv := range t[2:] {
 				if strings.HasPrefix(kv, "roots=") {
 					roots, _ = strconv.Atoi(kv[6:])
@@ -408,37 +444,55 @@ func histMain(path, mode string) int {
 				if strings.HasPrefix(kv, "maxdir=") {
 					maxdir, _ = strconv.Atoi(kv[7:])
 				}
+				if strings.HasPrefix(kv, "dir=") {
+					base, keep = kv[4:], true
+				}
 			}
-			e = &histEnv{mode: mode, dir: dir, keys: []string{""}, keyIds: map[string]int{"": 0},
-				txs: []fs_db.Tx{nil}, shas: map[[32]byte]uint64{}}
-			e.cfg.Storage.DbPath = filepath.Join(dir, "db")
-			for i := 0; i < roots; i++ {
-				e.cfg.Storage.RootDirs = append(e.cfg.Storage.RootDirs, filepath.Join(dir, fmt.Sprintf("r%d", i)))
+			if base == "" {
+				dir, derr := os.MkdirTemp("", "fsdbh-")
+				if derr != nil {
+					fmt.Fprintln(os.Stderr, derr)
+					return 2
+				}
+				base = dir
 			}
-			e.cfg.Storage.MaxDirCount = uint64(maxdir)
-			e.cfg.Storage.GCPeriod = time.Hour
-			e.cfg.WPool.NumWorkers = 2
-			e.cfg.WPool.SendDuration = time.Millisecond
-			if oerr := e.open(); oerr != nil {
-				fmt.Fprintln(out, "case", t[1], "OPEN-FAILED", oerr)
-				e.h = nil
-				continue
-			}
+			envs = map[int]*histEnv{}
+			keys = []string{""}
+			keyIds = map[string]int{"": 0}
 			fmt.Fprintln(out, "case", t[1])
 		case "keytab":
 			for _, hxs := range t[1:] {
 				b, _ := hex.DecodeString(hxs)
-				e.keyIds[string(b)] = len(e.keys)
-				e.keys = append(e.keys, string(b))
+				keyIds[string(b)] = len(keys)
+				keys = append(keys, string(b))
 			}
 		case "end":
 			fmt.Fprintln(out, "end")
-			closeEnv()
+			closeAll()
+		case "closedb":
+			// close an instance without reopening it
+			if e, ok := envs[inst]; ok && e.h != nil {
+				drainPool()
+				if cerr := e.h.Close(); cerr != nil {
+					fmt.Fprintln(out, "close-"+errClass(cerr))
+				} else {
+					fmt.Fprintln(out, "ok")
+				}
+				delete(envs, inst)
+			} else {
+				fmt.Fprintln(out, "ok")
+			}
 		default:
-			if e == nil || e.h == nil {
+			if envs == nil {
 				fmt.Fprintln(out, "NO-DB")
 				continue
 			}
+			e, oerr := getEnv(inst)
+			if oerr != nil || e.h == nil {
+				fmt.Fprintln(out, "OPEN-FAILED", oerr)
+				continue
+			}
+			e.keys, e.keyIds = keys, keyIds
 			fmt.Fprintln(out, e.step(t))
 		}
 	}
